@@ -21,10 +21,10 @@ def bounds(tier):
 
 
 def mk(variants, started=None, ended=None, edstart='present', pre_op=False, T=60, tag='', dmax=100000, resend=None,
-       blank_id=None, example=None, unique=True, meta_last=False, restart=None, edstamp=0):
+       blank_id=None, example=None, unique=True, meta_last=False, restart=None, edstamp=0, payload_order=None, dmin=0):
     N = len(variants)
     P = {'N': N, 'variants': list(variants), 'started': started, 'ended': ended, 'edstart': edstart,
-         'pre_op': pre_op, 'resend': resend, 'blank_id': blank_id, 'meta_last': meta_last, 'restart': restart, 'edstamp': edstamp}
+         'pre_op': pre_op, 'resend': resend, 'blank_id': blank_id, 'meta_last': meta_last, 'restart': restart, 'edstamp': edstamp, 'payload_order': payload_order}
     sym = [('s%d' % i, 'str') for i in range(N)]
     strs = [n for n, _ in sym]
     # story IDs need not be unique (roStoryAppend does not de-duplicate): in the 'dup-ids' cells the solver may
@@ -35,7 +35,7 @@ def mk(variants, started=None, ended=None, edstart='present', pre_op=False, T=60
         for flag, name in zip(has, ('sd', 'tt', 'mt')):
             if flag:
                 sym.append(('%s%d' % (name, i), 'int'))
-                pre.append('0 <= %s%d <= %d' % (name, i, dmax))
+                pre.append('%d <= %s%d <= %d' % (dmin, name, i, dmax))
     cid = 'C16/%s/ed-%s' % (','.join(variants), edstart)
     if started and any(x is not None for x in started):
         cid += '/started-' + ''.join('-' if x is None else str(x) for x in started)
@@ -61,6 +61,10 @@ def mk(variants, started=None, ended=None, edstart='present', pre_op=False, T=60
         cid += '/then-new-roEdStart'
     if edstamp:
         cid += '/roEdStart-with-zone'
+    if payload_order:
+        cid += '/payload-children-' + payload_order
+    if dmin:
+        cid += '/dmin%d' % dmin
     # concrete anchors use FRACTIONAL durations (the symbolic run uses exact integers, stub S3): the real float()
     # parsing of "12.5"-style texts is exercised here
     ex = example
@@ -132,6 +136,14 @@ def cells(tier):
     out.append(mk(['TT', 'SD'], started=[4, None], ended=[None, 4], edstamp=3, T=T))
     out.append(mk(['SD', 'MT'], restart=4, started=[1, None], T=T))
     out.append(mk(['SD', 'SD', 'TT'], edstamp=3, T=T, dmax=10000))
+    # the children of the timing payload in the opposite order (StoryDuration last)
+    out.append(mk(['SD+TT+MT'], payload_order='reversed', T=T))
+    out.append(mk(['SD+TT+MT', 'TT+MT'], payload_order='reversed', started=[1, None], ended=[None, 2], T=T))
+    out.append(mk(['SD+TT', 'SD+TT+MT', 'MT'], payload_order='reversed', T=T, dmax=10000))
+    # negative numbers are numbers: a negative duration (e.g. -1 for 'not timed yet') enters every sum as it is
+    out.append(mk(['SD', 'SD'], dmin=-1000, T=T))
+    out.append(mk(['TT+MT', 'SD', 'MT'], dmin=-1000, T=T, dmax=10000))
+    out.append(mk(['SD', 'TT+MT'], dmin=-1000, edstart='absent', T=T))
     # no story at all (roCreate without stories, or every story deleted): the sum of nothing is 0
     for ed in ('present', 'absent'):
         out.append(mk([], edstart=ed, T=T))
